@@ -6,6 +6,7 @@ import (
 	"fmt"
 	"os"
 	"path/filepath"
+	"runtime"
 	"strconv"
 	"strings"
 	"sync"
@@ -218,4 +219,11 @@ func watchdog(d time.Duration, f func()) (hung bool) {
 	case <-time.After(d):
 		return true
 	}
+}
+
+// stackContains tells whether any goroutine's stack mentions s.
+func stackContains(s string) bool {
+	buf := make([]byte, 1<<20)
+	n := runtime.Stack(buf, true)
+	return strings.Contains(string(buf[:n]), s)
 }
